@@ -56,6 +56,6 @@ def lemmas():
 
 TRUSTED = cm.TRUSTED_CORE
 ASSUMPTIONS = cm.ASSUME_CORE + ['list.sort contract assumed']
-LEVEL_TEXT = 'Proves: every scanner token other than an error mark or verbatim material is the source slice at its own offset and the tokens tile the source (so plain prose is tokenised into its own characters); a Special token carries a key of the table that is a prefix of the remaining source; expand_sequence replaces a Special token by a Text token at the same offset whose text is the table value (table lemma by evaluation of the real Parameters object: documented values, len(value) <= len(key)); the default branch appends the token itself; get_txt_pos maps the k-th character of a non-fixed token to pos+k. NOT proved: longest match (needs an index-aware invariant over the sorted key list; the sort order itself is checked by evaluation).'
+LEVEL_TEXT = 'Proves: every scanner token other than an error mark or verbatim material is the source slice at its own offset and the tokens tile the source (so plain prose is tokenised into its own characters); a Special token carries a key of the table that is a prefix of the remaining source; expand_sequence replaces a Special token by a Text token at the same offset whose text is the table value (table lemma by evaluation of the real Parameters object: documented values, len(value) <= len(key), every key outside the documented list starts with a LaTeX-active character so that prose is never rewritten); the default branch appends the token itself; get_txt_pos maps the k-th character of a non-fixed token to pos+k. NOT proved: longest match (needs an index-aware invariant over the sorted key list; the sort order itself is checked by evaluation).'
 LEVEL_NOTE = 'Longest-match is covered only by the evaluation lemma "keys sorted by non-increasing length" plus the first-match structure of the loop; identity of remove_pure_action_lines on lists without action tokens is not proved.'
 TECHNIQUE = 'contract-based deductive verification: per-function postconditions and loop invariants over the real AST, z3; end-to-end sentence of the property not decided'
